@@ -32,7 +32,7 @@ func init() {
 			"hotline.(*FlatFileInformationFork).ReadNameSize", "hotline.(*FlatFileInformationFork).SetComment",
 			"hotline.(*FlatFileInformationFork).UnmarshalBinary", "hotline.(*FlatFileInformationFork).Write",
 			"hotline.(*flattenedFileObject).Read", "hotline.(*FileHeader).Read",
-			"hotline.(*NewsArtList).Read", "hotline.(*NewsArtListData).Read", "hotline.(*TrackerRegistration).Read",
+			"hotline.(*NewsArtList).Read", "hotline.(*NewsCategoryListData15).Read", "hotline.(*NewsArtListData).Read", "hotline.(*TrackerRegistration).Read",
 			"hotline.(*handshake).Write", "hotline.(*handshake).Valid", "hotline.(*transfer).Write",
 			"hotline.(*FilePathItem).Write", "hotline.fileItemScanner", "hotline.NewForkInfoList",
 		),
